@@ -146,18 +146,6 @@ open SqVerif.Gen.Defaults in
 /-- `_read_user` is a documented key (so `update_settings` never raises `KeyError`) and is on by default -/
 theorem defaults_have_switch : (lookup readUserKey defaults).map truthy = some true := by decide
 
-open SqVerif.Gen.Defaults in
-/-- every documented key can be set through a property of the settings object -/
-theorem every_default_settable : defaults.all (fun p => setters.contains p.1) = true := by decide
-
-open SqVerif.Gen.Defaults in
-/-- `update_settings` lays defaults, then the store, then the user's file -/
-theorem layering_order : layers = ["_default_config", "_internal_settings_file", "_user_settings_file"] := by decide
-
-open SqVerif.Gen.Defaults in
-/-- `_set_setting` and `default_settings` write through to the store -/
-theorem writes_through : writers = [("_set_setting", true), ("default_settings", true)] := by decide
-
 theorem defaults_switch_isSome : (lookup readUserKey Gen.Defaults.defaults).isSome := by
   have := defaults_have_switch
   cases h : lookup readUserKey Gen.Defaults.defaults with
@@ -183,11 +171,15 @@ theorem documented_single_writer_history (u : Option Store) (S0 : Option Store) 
 
 /-! ### outside the statement: the user-file leak (recorded, not claimed) -/
 
+/-- a small default table for the concrete instances below (they must not depend on the generated one) -/
+def demoDefaults : Store :=
+  [("_read_user", "true"), ("max_qubits", "20"), ("log_level", "30"), ("noisy_qubits", "false"), ("t1", "1.0")]
+
 /-- The user's file sets `max_qubits`; the settings object sets another key and
 then switches overrides off.  A later process reads the user's 5 although the
 settings object never wrote `max_qubits` (the last-writer table says 20). -/
 theorem user_value_leaks_when_disabled :
-    let D := Gen.Defaults.defaults
+    let D := demoDefaults
     let u : Option Store := some [("max_qubits", "5")]
     let ops := [Op.set "t1" "2.0", Op.set readUserKey "false"]
     let w := run D u (boot D u none).1 ops
@@ -200,17 +192,25 @@ theorem user_value_leaks_when_disabled :
 
 /-- a history with every kind of step, a user file and a pre-existing store with a repeated key -/
 example :
-    let D := Gen.Defaults.defaults
+    let D := demoDefaults
     let u : Option Store := some [("log_level", "10"), ("extra", "[1,2]")]
     let S0 : Option Store := some [("t1", "3.5"), ("t1", "4.5")]
     let ops := [Op.set "max_qubits" "7", .setBad "sim_backend", .reload, .set "log_level" "50", .restart,
                 .set "noisy_qubits" "true", .reset, .set "custom" "{\"a\":null}"]
     let w := run D u (boot D u S0).1 ops
     let r := (boot D u w.store).1.mem
+    (lookup readUserKey D).isSome ∧ wf D = true ∧
     lookup "max_qubits" r = some "20" ∧ lookup "custom" r = some "{\"a\":null}" ∧
     lookup "log_level" r = some "10" ∧ lookup "t1" r = some "1.0" ∧
     lastWritten D S0 ops "t1" = some "1.0" ∧ enabled D w.store = true ∧
     userValue u "log_level" = some "10" ∧ userValue u "t1" = none := by
+  decide
+
+/-- hypotheses of T18.1 / T18.2' on a concrete state: the memory is a dict, the user's file does not set the key -/
+example :
+    let w : World := { mem := [("_read_user", "true"), ("t1", "1.0")], store := none }
+    wf w.mem = true ∧ userValue (some [("max_qubits", "5")]) "t1" = none ∧
+    enabled demoDefaults (step demoDefaults none w (.set "_read_user" "0")).1.store = false := by
   decide
 
 example : wf ([("a", "1"), ("b", "2")] : Store) = true ∧ wf ([("a", "1"), ("a", "2")] : Store) = false := by decide
